@@ -50,8 +50,8 @@ PLANS = {
                                  'build/plain/texelsim dtm KQvKQ KQvKR KQvKB KQvKN KRvKR', 'build/plain/texelsim dtm KRvKB KRvKN KBvKB KBvKN KNvKN'])]},
     'C14': {'quick': [E('C14', 'plain', 400, 110, run_wall_s=120)],
             'thorough': [E('C14', 'plain', 10000, 3600, run_wall_s=300)]},
-    'C06': {'quick': [E('C06', 'plain', 2500, 100)],
-            'thorough': [E('C06', 'plain', 80000, 3600)]},
+    'C06': {'quick': [E('C06', 'plain', 2500, 90), E('C06J', 'plain', 800, 35, seed_offset=400000)],
+            'thorough': [E('C06', 'plain', 80000, 3600), E('C06J', 'plain', 30000, 1800, seed_offset=400000)]},
 }
 
 LEVEL = {k: 'exploration' for k in ['C03', 'C04', 'C05', 'C06', 'C07', 'C08', 'C09', 'C10', 'C13', 'C14', 'C17', 'C18', 'C19']}
